@@ -380,6 +380,11 @@ fn footer_regions(out: &mut [Region], start: usize, len: usize, own_entry: Optio
     let r = if i < 16 {
       Region::Authenticated("common-mac")
     } else if i < 20 {
+      // the number of receiver-specific MACs: with origin authentication a smaller number cuts
+      // this receiver's MAC off (must be rejected), a larger one no longer parses
+      // (a smaller number that still includes this receiver's entry is harmless: only the
+      // explicit "number set to 0" alteration below is asserted)
+      let _ = own_entry;
       Region::Free
     } else {
       let entry = (i - 20) / 20;
@@ -832,6 +837,57 @@ pub fn run(_scenario: u32, choices: &[u8], _strict: bool) -> Outcome {
         }
       }
     }
+    // with origin authentication: receiver-specific MACs stripped, and an encoding for nobody
+    if cfg.sub_origin {
+      let (_, subs) = wire::walk(&bytes).expect("own datagram");
+      if let Some(q) = subs.iter().find(|x| x.kind == SEC_POSTFIX) {
+        // keep the common MAC, set the count to 0, drop the entries, fix the submessage length
+        let mut b = bytes[..q.offset + 4 + 16].to_vec();
+        b.extend_from_slice(&[0, 0, 0, 0]);
+        let le = bytes[q.offset + 1] & 1 == 1;
+        let l = 20u16;
+        let lb = if le { l.to_le_bytes() } else { l.to_be_bytes() };
+        b[q.offset + 2] = lb[0];
+        b[q.offset + 3] = lb[1];
+        // the number of receiver-specific MACs set to 0, the entries left in place
+        let mut z = bytes.clone();
+        z[q.offset + 4 + 16..q.offset + 4 + 20].copy_from_slice(&[0, 0, 0, 0]);
+        if let Dec::Success(_) = decode_sub_at(crypto0, lp0, rp0, &z) {
+          o.violate(
+            "c16.origin-authentication",
+            "submessage-receiver-mac-count-zeroed",
+            format!("{cfg:?}: {name} with the receiver-specific MAC count set to 0 decoded although origin authentication is required"),
+          );
+          return o;
+        }
+        if let Dec::Success(_) = decode_sub_at(crypto0, lp0, rp0, &b) {
+          o.violate(
+            "c16.origin-authentication",
+            "submessage-receiver-macs-stripped",
+            format!("{cfg:?}: {name} with all receiver-specific MACs stripped from the footer decoded although origin authentication is required"),
+          );
+          return o;
+        }
+        tampered_authenticated += 1;
+      }
+      let for_nobody = if writer_side {
+        sender.crypto.encode_datawriter_submessage(plain_sub.clone(), sender.w, vec![])
+      } else {
+        receivers[0].crypto.encode_datareader_submessage(plain_sub.clone(), receivers[0].reader, vec![])
+      };
+      if let Ok(e) = for_nobody {
+        let b = serialize(&Message { header: plain_msg.header, submessages: Vec::<Submessage>::from(e) });
+        if let Dec::Success(_) = decode_sub_at(crypto0, lp0, rp0, &b) {
+          o.violate(
+            "c16.origin-authentication",
+            "submessage-encoded-for-nobody",
+            format!("{cfg:?}: {name} encoded for an empty receiver list (no receiver-specific MAC at all) decoded although origin authentication is required"),
+          );
+          return o;
+        }
+        o.label("encoded-for-nobody-rejected");
+      }
+    }
     // other key material (writer side only: the impostor world has the same shape)
     if writer_side {
       if let Ok(e) = impostor.crypto.encode_datawriter_submessage(plain_sub.clone(), impostor.w, impostor.recv_r.clone()) {
@@ -953,6 +1009,47 @@ pub fn run(_scenario: u32, choices: &[u8], _strict: bool) -> Outcome {
           Dec::Success(_) => o.label("no-origin-authentication-other-receiver-decodes"),
           Dec::Rejected(_) => o.label("not-addressed-rejected"),
         }
+      }
+    }
+    if cfg.rtps_origin {
+      let (_, subs) = wire::walk(&bytes).expect("own datagram");
+      if let Some(q) = subs.iter().find(|x| x.kind == SRTPS_POSTFIX) {
+        let mut b = bytes[..q.offset + 4 + 16].to_vec();
+        b.extend_from_slice(&[0, 0, 0, 0]);
+        let le = bytes[q.offset + 1] & 1 == 1;
+        let lb = if le { 20u16.to_le_bytes() } else { 20u16.to_be_bytes() };
+        b[q.offset + 2] = lb[0];
+        b[q.offset + 3] = lb[1];
+        let mut z = bytes.clone();
+        z[q.offset + 4 + 16..q.offset + 4 + 20].copy_from_slice(&[0, 0, 0, 0]);
+        if let Dec::Success(_) = decode_msg_at(&r0.crypto, r0.p, r0.sender_p, &z) {
+          o.violate(
+            "c16.origin-authentication",
+            "message-receiver-mac-count-zeroed",
+            format!("{cfg:?}: a message with the receiver-specific MAC count set to 0 decoded although origin authentication is required"),
+          );
+          return o;
+        }
+        if let Dec::Success(_) = decode_msg_at(&r0.crypto, r0.p, r0.sender_p, &b) {
+          o.violate(
+            "c16.origin-authentication",
+            "message-receiver-macs-stripped",
+            format!("{cfg:?}: a message with all receiver-specific MACs stripped from the footer decoded although origin authentication is required"),
+          );
+          return o;
+        }
+        tampered_authenticated += 1;
+      }
+      if let Ok(m) = sender.crypto.encode_rtps_message(plain_msg.clone(), sender.p, vec![]) {
+        if let Dec::Success(_) = decode_msg_at(&r0.crypto, r0.p, r0.sender_p, &serialize(&m)) {
+          o.violate(
+            "c16.origin-authentication",
+            "message-encoded-for-nobody",
+            format!("{cfg:?}: a message encoded for an empty receiver list decoded although origin authentication is required"),
+          );
+          return o;
+        }
+        o.label("encoded-for-nobody-rejected");
       }
     }
     if let Ok(m) = impostor.crypto.encode_rtps_message(plain_msg.clone(), impostor.p, impostor.recv_p.clone()) {
